@@ -2,6 +2,11 @@
 base strings, known-finding signatures (predicates over a failing case)."""
 
 KIND_NAMES = {
+    1501: 'C15/udp_packet: UDP announce datagram vs Tracker.udp_announce',
+    1502: 'C15/http_query: HTTP announce query vs Tracker.http_query',
+    1503: 'C15/announcer: PeriodicalAnnouncer events and gaps vs Announcer.v (timing tolerance -25/+600 ms)',
+    1602: 'C16/udp_parse: parseAnnounceResponse vs Tracker.parse_udp_announce',
+    1603: 'C16/http_parse: HTTP response interpretation vs Tracker.http_response',
     301: 'C03/cached_read: cachedpiece.ReadAt vs Cache.cached_read',
     302: 'C03/cache: piececache.Cache vs Cache.cache_get (LRU)',
     1801: 'C18/blocklist: blocklist.Reload+Blocked vs Stree.reload/contains',
@@ -65,8 +70,13 @@ PROPS = {
         'trusted': [],
         'assumptions': [],
     },
+    'C15': {
+        'kinds': {1501: {'quick': 2000, 'thorough': 40000}, 1502: {'quick': 600, 'thorough': 8000}, 1503: {'quick': 160, 'thorough': 2400}},
+        'trusted': ['net/http client and server deliver the raw query unchanged', 'encoding/binary struct layout'],
+        'assumptions': [],
+    },
     'C16': {
-        'kinds': {1601: {'quick': 1500, 'thorough': 20000}},
+        'kinds': {1601: {'quick': 1500, 'thorough': 20000}, 1602: {'quick': 3000, 'thorough': 60000}, 1603: {'quick': 800, 'thorough': 10000}},
         'trusted': ['sync/atomic CompareAndSwap/Load are linearizable (the model runs an announce as two atomic steps)',
                     'Go scheduler: the scripted member blocks inside Announce, so the harness decides the order of loads and CASes'],
         'assumptions': ['tier size fits int32; index never reaches 2^31 (true with the fix: it stays below n)'],
@@ -86,6 +96,10 @@ def distribution(pid, cases):
         if c['obs'].startswith('-777'):
             d['impl crashed (recovered panic)'] = d.get('impl crashed (recovered panic)', 0) + 1
     return d
+
+# kinds whose observations carry wall-clock measurements: agreement is decided by the monitor
+# (model prediction compared with a tolerance), not by exact equality of the two outputs
+MONITOR_DECIDES = {1503}
 
 # known-finding signatures: id -> predicate over a case dict (kind, in, obs, exp, mon)
 SIGNATURES = {}
